@@ -511,12 +511,10 @@ def queryTargets (w : WorkerSt) (awaiter : Pid) : List Pid → WorkerSt × Resul
   | t :: rest =>
     match w.completedStatus t with
     | some r =>
-      let (w', rs) := queryTargets w awaiter rest
-      (w', ainsert rs t (some r))
+      ((queryTargets w awaiter rest).1, ainsert (queryTargets w awaiter rest).2 t (some r))
     | none =>
       let w1 := { w with awaited := sinsert w.awaited t, awaitersFor := upd w.awaitersFor t (w.awaitersFor t ++ [awaiter]) }
-      let (w', rs) := queryTargets w1 awaiter rest
-      (w', ainsert rs t none)
+      ((queryTargets w1 awaiter rest).1, ainsert (queryTargets w1 awaiter rest).2 t none)
 
 def reportedOf (awaiter : Pid) (rs : Results) : List (Pid × Pid) :=
   rs.filterMap (fun tr => match tr.2 with | some _ => some (awaiter, tr.1) | none => none)
@@ -565,8 +563,8 @@ def handleCmdWith (emptyWake : WorkerSt → Pid → WorkerSt) (s : Sys) (i : Wid
       { s.setWk i (w1.wakeSelecting t) with appended := s.appended ++ [(t, m)] }
     | none => { s.setWk i (w.wakeSelecting t) with dropped := s.dropped ++ [(t, m)] }
   | .queryAwait a ts =>
-    let (w', rs) := queryTargets (s.wk i) a ts
-    { (s.setWk i w').pushEvt i (.procResults a rs) with reported := s.reported ++ reportedOf a rs }
+    let q := queryTargets (s.wk i) a ts
+    { (s.setWk i q.1).pushEvt i (.procResults a q.2) with reported := s.reported ++ reportedOf a q.2 }
   | .updateAwait a rs =>
     let w := s.wk i
     let w' := if rs.any (fun tr => tr.2.isSome) then applyResults w a rs else emptyWake w a
